@@ -203,6 +203,43 @@ def templates() -> list[dict]:
     add("maximum", ["n", "m"], {"x": (("n", "m"), "f8"), "y": (("n", 1), "f8")},
         lambda pt, i, p: {"o": pt.maximum(i["x"], i["y"])},
         lambda v, s: {"o": np.maximum(v["x"], v["y"])})
+    # the SAME length written in two ways on the two operands of one operation
+    # (n+m / m+n, 2n / n+n, n+1 / 1+n): the decision "equal" must also reach the
+    # generated subscripts (a[i] + b[i], not a[i] + b[0])
+    nm_f = {"coef": [("n", 1), ("m", 1)], "off": 0, "how": "fwd"}
+    nm_r = {"coef": [("n", 1), ("m", 1)], "off": 0, "how": "rev"}
+    n2_f = {"coef": [("n", 2)], "off": 0, "how": "fwd"}
+    n2_s = {"coef": [("n", 2)], "off": 0, "how": "addself"}
+    n1_f = {"coef": [("n", 1)], "off": 1, "how": "fwd"}
+    n1_r = {"coef": [("n", 1)], "off": 1, "how": "rev"}
+    add("written_nm", ["n", "m"], {"x": ((nm_f,), "f8"), "y": ((nm_r,), "f8")},
+        lambda pt, i, p: {"o": i["x"] + i["y"], "q": pt.where(pt.greater(i["x"], 0), i["y"],
+                                                              i["x"])},
+        lambda v, s: {"o": v["x"] + v["y"], "q": np.where(v["x"] > 0, v["y"], v["x"])})
+    add("written_2n", ["n"], {"x": ((n2_f, 3), "f8"), "y": ((n2_s, 1), "f8")},
+        lambda pt, i, p: {"o": i["x"] * i["y"], "q": pt.maximum(i["y"], i["x"])},
+        lambda v, s: {"o": v["x"] * v["y"], "q": np.maximum(v["y"], v["x"])})
+    add("written_n1", ["n"], {"x": ((n1_f,), "f8"), "y": ((n1_r,), "f8"),
+                              "A": ((n1_r, n1_f), "f8")},
+        lambda pt, i, p: {"o": i["x"] - i["y"], "q": pt.einsum("ij,j->i", i["A"], i["x"]),
+                          "r": pt.stack([i["x"], i["y"]], axis=0)},
+        lambda v, s: {"o": v["x"] - v["y"], "q": v["A"] @ v["x"],
+                      "r": np.stack([v["x"], v["y"]], 0)})
+    # a contracted einsum index on a unit axis of one operand and a symbolic
+    # extent in the other (the reduction runs over the LONGER extent)
+    add("einsum_bcast_redn", ["n", "m"], {"a": (("n", 1), "f8"), "b": (("n", "m"), "f8")},
+        lambda pt, i, p: {"o": pt.einsum("ij,ij->i", i["a"], i["b"]),
+                          "q": pt.einsum("ij,ij->i", i["b"], i["a"]),
+                          "r": pt.einsum("ij,ij->", i["a"], i["b"])},
+        lambda v, s: {"o": np.einsum("ij,ij->i", v["a"], v["b"]),
+                      "q": np.einsum("ij,ij->i", v["b"], v["a"]),
+                      "r": np.einsum("ij,ij->", v["a"], v["b"])})
+    add("einsum_bcast_redn3", ["m"], {"a": ((2, 1), "f8"), "b": ((1, "m"), "f8"),
+                                      "c": ((2, "m"), "f8")},
+        lambda pt, i, p: {"o": pt.einsum("ij,ij,ij->i", i["a"], i["b"], i["c"]),
+                          "q": pt.einsum("ij,ij->j", i["a"], i["c"])},
+        lambda v, s: {"o": np.einsum("ij,ij,ij->i", v["a"], v["b"], v["c"]),
+                      "q": np.einsum("ij,ij->j", v["a"], v["c"])})
     add("two_stage", ["n", "m"], {"A": (("n", "m"), "f8"), "v": (("m",), "f8"),
                                  "w": (("n",), "f8")},
         lambda pt, i, p: {"o": pt.sin(pt.einsum("ij,j->i", i["A"], i["v"])) + i["w"]},
@@ -290,11 +327,35 @@ def template_of_program(prog: dict) -> dict:
             "ref": ref}
 
 
+def dim_to_pt(d: Any, params: dict) -> Any:
+    """A shape-component description as a pytato shape component."""
+    if isinstance(d, int):
+        return d
+    if isinstance(d, str):
+        return params[d]
+    if isinstance(d, dict):         # one affine length, written in a chosen way
+        terms = [(c * params[q] if c != 1 else params[q]) for q, c in d["coef"]]
+        if d["how"] == "addself":
+            terms = [params[q] for q, c in d["coef"] for _ in range(c)]
+        if d["off"]:
+            terms.append(d["off"])
+        if d["how"] == "rev":
+            terms.reverse()
+        e = terms[0]
+        for t in terms[1:]:
+            e = e + t
+        return e
+    name, c, off = d
+    return c * params[name] + off
+
+
 def dim_value(d: Any, sizes: dict) -> int:
     if isinstance(d, int):
         return d
     if isinstance(d, str):
         return sizes[d]
+    if isinstance(d, dict):
+        return d["off"] + sum(c * sizes[p] for p, c in d["coef"])
     name, c, off = d           # ("n", 2, 1) = 2*n + 1
     return c * sizes[name] + off
 
@@ -307,12 +368,7 @@ def run_template(t: dict) -> dict:
     params = {p: pt.make_size_param(p) for p in t["params"]}
 
     def dim_pt(d: Any) -> Any:
-        if isinstance(d, int):
-            return d
-        if isinstance(d, str):
-            return params[d]
-        name, c, off = d
-        return c * params[name] + off
+        return dim_to_pt(d, params)
     try:
         ins = {nm: pt.make_placeholder(nm, tuple(dim_pt(d) for d in shp), np.float64)
                for nm, (shp, _) in t["inputs"].items()}
